@@ -9,6 +9,7 @@ import (
 	"go/constant"
 	"go/token"
 	"go/types"
+	"sort"
 	"strings"
 
 	"golang.org/x/tools/go/ssa"
@@ -117,6 +118,154 @@ func ownFieldID(c *Ctx, k ssa.Value, seg ssa.Value, depth int) bool {
 	return good
 }
 
+type dvChunkSite struct {
+	fn  *ssa.Function
+	pos token.Pos
+	v   int64
+	ok  bool
+	why string
+}
+
+func keysOf(m map[string]bool) []string {
+	var out []string
+	for k := range m {
+		out = append(out, k)
+	}
+	sort.Strings(out)
+	return out
+}
+
+// foldChunkSize: the constant a chunk-size value folds to.
+func (c *Ctx) foldChunkSize(v ssa.Value, depth int) (int64, bool, string) {
+	if depth > 5 {
+		return 0, false, exprSig(v, 0)
+	}
+	legacy, _ := constantInt64(c.ConstVal("legacyChunkMode"))
+	switch x := stripConv(v).(type) {
+	case *ssa.Const:
+		if k, ok := constInt(x); ok {
+			return k, true, ""
+		}
+	case *ssa.Extract:
+		if call, ok := x.Tuple.(*ssa.Call); ok && call.Call.StaticCallee() != nil && fnName(call.Call.StaticCallee()) == "getChunkSize" && x.Index == 0 {
+			mode, _, _ := chunkSizeArgs(&call.Call)
+			m, ok := constInt(mode)
+			if !ok {
+				return 0, false, "getChunkSize with the non-constant mode " + exprSig(mode, 0)
+			}
+			if m > legacy {
+				return 0, false, fmt.Sprintf("getChunkSize with mode %d above the legacy bound %d (the size then depends on the other arguments)", m, legacy)
+			}
+			return m, true, ""
+		}
+	case *ssa.Call:
+		// a helper returning the chunk size
+		if sc := x.Call.StaticCallee(); sc != nil && c.inRoot(sc) && sc.Blocks != nil {
+			var val int64
+			n := 0
+			for _, b := range sc.Blocks {
+				if ret, ok := b.Instrs[len(b.Instrs)-1].(*ssa.Return); ok && len(ret.Results) >= 1 {
+					k, ok, why := c.foldChunkSize(ret.Results[0], depth+1)
+					if !ok {
+						return 0, false, why
+					}
+					if n > 0 && k != val {
+						return 0, false, "a helper returning different sizes"
+					}
+					val, n = k, n+1
+				}
+			}
+			if n > 0 {
+				return val, true, ""
+			}
+		}
+	case *ssa.Parameter:
+		sites := c.callsTo(x.Parent())
+		var val int64
+		for i, site := range sites {
+			k, ok, why := c.foldChunkSize(argFor(site.Common(), x), depth+1)
+			if !ok {
+				return 0, false, why
+			}
+			if i > 0 && k != val {
+				return 0, false, "different sizes at different call sites"
+			}
+			val = k
+		}
+		if len(sites) > 0 {
+			return val, true, ""
+		}
+	}
+	return 0, false, exprSig(v, 0)
+}
+
+// dvChunkSizes: the doc-value chunk-size sites of writers (every call that
+// constructs a chunkedContentCoder with a chunk size that is not simply its
+// own parameter) and of the reader (the division that selects the chunk in
+// the function that loads doc-value chunks on demand, or a helper of it).
+func (c *Ctx) dvChunkSizes() (writers, readers []dvChunkSite) {
+	for _, fn := range c.srcFns {
+		for _, call := range callsOf(fn, "newChunkedContentCoder") {
+			a := argNamed(&call.Call, "chunkSize")
+			if a == nil {
+				a = call.Call.Args[0]
+			}
+			if p, isParam := stripConv(a).(*ssa.Parameter); isParam && p.Parent() == fn {
+				// a constructor helper that forwards its own parameter: its call sites are the sites
+				for _, site := range c.callsTo(fn) {
+					k, ok, why := c.foldChunkSize(argFor(site.Common(), p), 0)
+					writers = append(writers, dvChunkSite{site.Parent(), site.Pos(), k, ok, why})
+				}
+				continue
+			}
+			k, ok, why := c.foldChunkSize(a, 0)
+			site := dvChunkSite{fn, call.Pos(), k, ok, why}
+			// a constructor helper with a fixed size counts once per caller
+			if sites := c.callsTo(fn); len(sites) > 0 && fn.Signature.Results().Len() == 1 && strings.HasSuffix(fn.Signature.Results().At(0).Type().String(), ".chunkedContentCoder") {
+				for _, s2 := range sites {
+					writers = append(writers, dvChunkSite{s2.Parent(), s2.Pos(), k, ok, why})
+				}
+				continue
+			}
+			writers = append(writers, site)
+		}
+	}
+	// reader: functions calling loadDvChunk on demand, and their helpers
+	seen := map[*ssa.Function]bool{}
+	var scan []*ssa.Function
+	for _, fn := range c.fnsCalling("(*docValueReader).loadDvChunk") {
+		if fnName(fn) == "(*docValueReader).iterateAllDocValues" {
+			continue // iterates all chunks, selects none
+		}
+		scan = append(scan, fn)
+		for _, sc := range staticCallees(fn) {
+			if c.inRoot(sc) && sc.Blocks != nil && len(sc.Blocks) <= 3 {
+				scan = append(scan, sc)
+			}
+		}
+	}
+	for _, fn := range scan {
+		if seen[fn] {
+			continue
+		}
+		seen[fn] = true
+		for _, b := range fn.Blocks {
+			for _, ins := range b.Instrs {
+				bin, ok := ins.(*ssa.BinOp)
+				if !ok || bin.Op != token.QUO {
+					continue
+				}
+				if _, isParam := stripConv(bin.X).(*ssa.Parameter); !isParam {
+					continue
+				}
+				k, ok, why := c.foldChunkSize(bin.Y, 0)
+				readers = append(readers, dvChunkSite{fn, bin.Pos(), k, ok, why})
+			}
+		}
+	}
+	return
+}
+
 // storesNonConstInto: fn stores a non-constant value into an element of param.
 func storesNonConstInto(fn *ssa.Function, param *ssa.Parameter) bool {
 	for _, b := range fn.Blocks {
@@ -171,93 +320,37 @@ func init() {
 	register(&Rule{
 		Name:  "DV-FACTOR-AGREE",
 		Floor: 3,
-		Doc:   "the three doc-value sites (builder, merger, reader) call getChunkSize with the same constant mode, which is <= the legacy bound so the result is that constant whatever the other arguments are; the writers size their content coder with the result and the reader's chunk index is docNum / result",
+		Doc:   "every doc-value content coder (builder, merger) is sized with a chunk size that folds to one constant — a literal/named constant, or getChunkSize with a constant mode not above the legacy bound (whose result is that mode whatever the other arguments are) — and the reader's chunk index divides the document number by the same constant",
 		Run: func(c *Ctx, scope string, r *Report) {
-			legacy, _ := constantInt64(c.ConstVal("legacyChunkMode"))
-			// the doc-value sites, found by what the result is used for
-			type dvSite struct {
-				fn   *ssa.Function
-				call *ssa.Call
-				role string
-			}
-			var sites []dvSite
-			nW, nR := 0, 0
-			for _, fn := range c.fnsCalling("getChunkSize") {
-				for _, call := range callsOf(fn, "getChunkSize") {
-					switch chunkSizeRole(fn, call) {
-					case "dv-writer":
-						sites = append(sites, dvSite{fn, call, "writer"})
-						nW++
-					case "dv-reader":
-						sites = append(sites, dvSite{fn, call, "reader"})
-						nR++
-					case "postings":
-					default:
-						r.undecided(fnName(fn)+"/dv-chunk", fnName(fn), c.pos(call.Pos()), "cannot tell what this getChunkSize result is used for (not a content coder, not a chunk index divisor, not the postings encoders)")
-					}
-				}
-			}
-			if nW < 2 || nR < 1 {
-				r.undecided("dv-chunk/sites", "", "-", fmt.Sprintf("%d doc-value writer and %d reader site(s) of getChunkSize found; the builder, the merger and the reader each need one", nW, nR))
-			}
-			modes := map[string]int64{}
-			for _, site := range sites {
-				fn, call, role := site.fn, site.call, site.role
-				name := fnName(fn)
-				key := name + "/dv-chunk"
-				modeArg, _, _ := chunkSizeArgs(&call.Call)
-				m, ok := constInt(modeArg)
-				if !ok {
-					r.bad(key, name, c.pos(call.Pos()), "the doc-value chunk mode is not a constant here ("+exprSig(modeArg, 0)+"): doc values are chunked by a fixed 1024 documents in format v2")
+			ws, rs := c.dvChunkSizes()
+			vals := map[string]bool{}
+			for _, w := range ws {
+				key := fnName(w.fn) + "/dv-chunk"
+				if !w.ok {
+					r.bad(key, fnName(w.fn), c.pos(w.pos), "the doc-value content coder is sized with "+w.why+": doc values are chunked by a fixed number of documents in format v2")
 					continue
 				}
-				modes[name] = m
-				if m > legacy {
-					r.bad(key, name, c.pos(call.Pos()), fmt.Sprintf("doc-value chunk mode %d exceeds the legacy bound %d, so the chunk size would depend on the other arguments", m, legacy))
+				vals[fmt.Sprint(w.v)] = true
+				r.ok(key, fnName(w.fn), c.pos(w.pos), fmt.Sprintf("writer: content coder chunk size folds to %d", w.v))
+			}
+			for _, rd := range rs {
+				key := fnName(rd.fn) + "/dv-chunk"
+				if !rd.ok {
+					r.bad(key, fnName(rd.fn), c.pos(rd.pos), "the reader's chunk index divides by "+rd.why+", not by a constant chunk size")
 					continue
 				}
-				res := tupleParts(call)[0]
-				used := false
-				if res != nil {
-					for _, ref := range *res.Referrers() {
-						switch x := ref.(type) {
-						case *ssa.Call:
-							if role == "writer" && x.Call.StaticCallee() != nil && fnName(x.Call.StaticCallee()) == "newChunkedContentCoder" && x.Call.Args[0] == ssa.Value(res) {
-								used = true
-							}
-						case *ssa.BinOp:
-							if role == "reader" && x.Op == token.QUO && x.Y == ssa.Value(res) {
-								if _, isParam := stripConv(x.X).(*ssa.Parameter); !isParam {
-									continue
-								}
-								used = true
-							}
-						}
-					}
-				}
-				if !used {
-					if role == "writer" {
-						r.bad(key, name, c.pos(call.Pos()), "the content coder is not sized with the computed doc-value chunk size")
-					} else {
-						r.bad(key, name, c.pos(call.Pos()), "the reader's chunk index is not localDocNum / computed chunk size")
-					}
-					continue
-				}
-				r.ok(key, name, c.pos(call.Pos()), fmt.Sprintf("%s uses getChunkSize(%d, …) = %d", role, m, m))
+				vals[fmt.Sprint(rd.v)] = true
+				r.ok(key, fnName(rd.fn), c.pos(rd.pos), fmt.Sprintf("reader: chunk index = docNum / %d", rd.v))
 			}
-			var first int64 = -1
-			same := true
-			for _, m := range modes {
-				if first < 0 {
-					first = m
-				} else if m != first {
-					same = false
-				}
+			if len(ws) < 2 || len(rs) < 1 {
+				r.undecided("dv-chunk/sites", "", "-", fmt.Sprintf("%d doc-value writer and %d reader chunk-size site(s) found; the builder, the merger and the reader each need one", len(ws), len(rs)))
 			}
-			if len(modes) >= 3 && same {
-				r.ok("dv-chunk/same-constant", "", "-", fmt.Sprintf("all three sites fold to %d", first))
-			} else if len(modes) > 0 {
-				r.bad("dv-chunk/same-constant", "", "-", fmt.Sprintf("the doc-value sites do not use one constant: %v", modes))
+			if len(vals) == 1 {
+				for v := range vals {
+					r.ok("dv-chunk/same-constant", "", "-", "all doc-value sites fold to "+v)
+				}
+			} else if len(vals) > 1 {
+				r.bad("dv-chunk/same-constant", "", "-", fmt.Sprintf("the doc-value sites do not use one constant: %v", keysOf(vals)))
 			}
 		},
 	})
@@ -484,10 +577,20 @@ func init() {
 					continue
 				}
 				progressive := true
-				for _, mk := range callsOf(fn, "newChunkedContentCoder") {
-					if a := argNamed(&mk.Call, "progressiveWrite"); a != nil {
-						if k, ok := a.(*ssa.Const); ok && k.Value != nil && k.Value.Kind() == constant.Bool && !constant.BoolVal(k.Value) {
-							progressive = false
+				// the coder's constructor, or a helper constructor that forwards the flag
+				for _, b := range fn.Blocks {
+					for _, ins := range b.Instrs {
+						mk, ok := ins.(*ssa.Call)
+						if !ok || mk.Call.StaticCallee() == nil || !c.inRoot(mk.Call.StaticCallee()) {
+							continue
+						}
+						if rt := mk.Call.Signature().Results(); rt.Len() != 1 || !strings.HasSuffix(rt.At(0).Type().String(), ".chunkedContentCoder") {
+							continue
+						}
+						if a := argNamed(&mk.Call, "progressiveWrite"); a != nil {
+							if k, ok := a.(*ssa.Const); ok && k.Value != nil && k.Value.Kind() == constant.Bool && !constant.BoolVal(k.Value) {
+								progressive = false
+							}
 						}
 					}
 				}
